@@ -70,9 +70,10 @@ Proof. intros st m es k v Hm Hh Hl. unfold get_map_index. now rewrite Hh, Hm, Hl
 Theorem hop_go_identity : forall x s, host_call 8 [x] s = Ok (set_rv s (Imm x)).
 Proof. reflexivity. Qed.
 
-(* a script function returns what its return statement evaluated to *)
-Theorem hop_script_return : forall rec e s, run_return rec [e] s = rec (CExpr e) s.
-Proof. reflexivity. Qed.
+(* a script function returns the value its return statement evaluated to *)
+Theorem hop_script_return : forall rec e s s1,
+  rec (CExpr e) s = Ok s1 -> run_return rec [e] s = Ok (set_rv s1 (Imm (deref (r_st s1) (r_rv s1)))).
+Proof. intros rec e s s1 H. unfold run_return. rewrite H. reflexivity. Qed.
 
 Print Assumptions unwrap_keeps_value.
 Print Assumptions operand_enters_by_value.
